@@ -1692,6 +1692,10 @@ pub struct ConnectionH2<Front: SocketHandler> {
     pub encoder: loona_hpack::Encoder<'static>,
     pub expect_read: Option<(H2StreamId, usize)>,
     pub expect_write: Option<H2StreamId>,
+    /// Control frames (PING / SETTINGS acknowledgements, the graceful GOAWAY)
+    /// were queued in the zero buffer while a stream frame was partly on the
+    /// wire; they are flushed once that frame is complete.
+    pub zero_write_deferred: bool,
     pub last_stream_id: StreamId,
     pub local_settings: H2Settings,
     pub peer_settings: H2Settings,
@@ -1910,6 +1914,7 @@ impl<Front: SocketHandler> ConnectionH2<Front> {
             encoder: loona_hpack::Encoder::new(),
             expect_read,
             expect_write: None,
+            zero_write_deferred: false,
             last_stream_id: 0,
             local_settings,
             peer_settings: H2Settings::default(),
@@ -2830,6 +2835,21 @@ impl<Front: SocketHandler> ConnectionH2<Front> {
                     }
                 }
             }
+        }
+
+        // Control frames that arrived while that stream frame was partly on
+        // the wire waited in the zero buffer (`expect_zero_write`): the frame
+        // is complete now, they go out at a frame boundary before anything else.
+        if self.zero_write_deferred && self.expect_write.is_none() {
+            self.zero_write_deferred = false;
+            self.expect_write = Some(H2StreamId::Zero);
+            if self.flush_zero_to_socket() {
+                self.ensure_tls_flushed();
+                return MuxResult::Continue;
+            }
+            // READABLE is disabled while the zero buffer is being written
+            self.readiness.interest.insert(Ready::READABLE);
+            self.expect_write = None;
         }
 
         self.gauge_connection_state();
@@ -4679,7 +4699,7 @@ impl<Front: SocketHandler> ConnectionH2<Front> {
                 // Keep READABLE so in-flight request bodies can still be received
                 // during the drain window. Only remove READABLE in the final GOAWAY
                 // (via `goaway()`).
-                self.expect_write = Some(H2StreamId::Zero);
+                self.expect_zero_write();
                 self.readiness.arm_writable();
                 MuxResult::Continue
             }
@@ -4761,6 +4781,20 @@ impl<Front: SocketHandler> ConnectionH2<Front> {
     /// Returns `true` if the socket stalled (WouldBlock / zero-length write),
     /// meaning the caller should stop writing and wait for the next writable event.
     /// Returns `false` when the buffer has been fully drained.
+    /// Ask for the zero buffer (control frames) to be written next. When a
+    /// stream frame is partly on the wire (`expect_write` names that stream)
+    /// its remaining octets must go out first: writing the control frame now
+    /// would put it INSIDE that frame and the peer would lose frame
+    /// synchronisation. The control frame then waits in the zero buffer and
+    /// `writable` flushes it right after the stream frame is complete.
+    fn expect_zero_write(&mut self) {
+        if matches!(self.expect_write, Some(H2StreamId::Other { .. })) {
+            self.zero_write_deferred = true;
+        } else {
+            self.expect_write = Some(H2StreamId::Zero);
+        }
+    }
+
     fn flush_zero_to_socket(&mut self) -> bool {
         while !self.zero.storage.is_empty() {
             let (size, status) = self.socket.socket_write(self.zero.storage.data());
@@ -5788,7 +5822,7 @@ impl<Front: SocketHandler> ConnectionH2<Front> {
 
         self.readiness.interest.insert(Ready::WRITABLE);
         self.readiness.interest.remove(Ready::READABLE);
-        self.expect_write = Some(H2StreamId::Zero);
+        self.expect_zero_write();
         self.readiness.signal_pending_write();
         MuxResult::Continue
     }
@@ -5845,7 +5879,7 @@ impl<Front: SocketHandler> ConnectionH2<Front> {
         };
         self.readiness.interest.insert(Ready::WRITABLE);
         self.readiness.interest.remove(Ready::READABLE);
-        self.expect_write = Some(H2StreamId::Zero);
+        self.expect_zero_write();
         self.readiness.signal_pending_write();
         MuxResult::Continue
     }
